@@ -149,7 +149,7 @@ var caseRe = regexp.MustCompile(`CASE (\d+)`)
 
 func runLaneB(f *commonFlags, scratch string) (map[string]any, []*Violation, int) {
 	cases := int64(1600)
-	budget := 25 * time.Second
+	budget := 120 * time.Second // a cap, not a target: 1600 call sets take about 10 s on an idle machine
 	if f.tier == "thorough" {
 		cases, budget = 1<<40, 3*time.Minute
 	}
